@@ -205,7 +205,10 @@ def _expr(e):
     if k == "cmp":
         out = expr(e[1][0], P_ADD)
         for o, x in zip(e[2], e[1][1:]):
-            out += [op(o)] + expr(x, P_ADD)
+            if o in ("is", "is not"):
+                out += [kw(w) for w in o.split()] + expr(x, P_ADD)
+            else:
+                out += [op(o)] + expr(x, P_ADD)
         return out
     if k == "and":
         out = expr(e[1][0], P_NOT)
